@@ -26,6 +26,7 @@ ROOT = os.path.join(C.CACHE, "c17")
 NSHARDS = 16
 CXXFLAGS = ["-O0", "-w"]
 STDS = {"quick": ["c++17"], "thorough": ["c++11", "c++14", "c++17", "c++20"]}
+ALLOC_LINES = {}   # -std -> the informational allocator line of the last probe run
 PAD = 6          # Properties_C17.C17_layout_large: sizeof(SmallVector) <= sizeof(vector) + N*sizeof(T) + 6
 PTR = 8
 
@@ -98,6 +99,7 @@ def run_probe(G, rows, std, tier):
         _prune(d, ROOT, "probe-")
     try:
         parsed = G.parse(text, rows)
+        ALLOC_LINES[std] = G.parse_alloc(text)
     except ValueError as e:
         return [], "parse: %s" % e, time.time() - t0, cached
     parsed.sort(key=lambda r: r["id"])
@@ -410,8 +412,17 @@ def check(report, tier):
     ]
     report.assumptions.append("C17 layout theorems: LP64 (sizeof(void*) = 8), Itanium C++ ABI, alignof T in {1,2,4,8,16}, sizeof(size_type) in {1,2,4,8}; "
                               "other platforms are outside the model (the probe would disagree with it)")
-    report.notes.append("the allocator is not a part of any container's trivially_relocatable typedef (amc::vector is declared relocatable whatever Alloc is); "
-                        "the model follows the headers, see Static.is_tr_ty")
+    al = [(std, ALLOC_LINES.get(std)) for std in stds if ALLOC_LINES.get(std)]
+    if al:
+        report.coverage["allocator_part"] = {std: a for std, a in al}
+        std, a = al[0]
+        if a["alloc_tr"] == 0 and (a["vector_tr"] or a["smallvector_tr"]):
+            report.notes.append(
+                "finding candidate (not counted as a violation: the property's conjunction is read over T, Compare, VecType, SetType as the headers "
+                "document it): the allocator base is not a part of any container's trivially_relocatable typedef. Decided by the compiler (-std=%s): "
+                "amc::is_trivially_relocatable<probe::SelfAlloc<int>> = %d (stateful, points to itself), yet amc::vector<int,SelfAlloc<int>> = %d "
+                "(sizeof %d: the allocator is stored), amc::SmallVector<int,4,SelfAlloc<int>> = %d, amc::FlatSet<int,std::less<int>,SelfAlloc<int>> = %d"
+                % (std, a["alloc_tr"], a["vector_tr"], a["sizeof_vector"], a["smallvector_tr"], a["flatset_tr"]))
     report.level = "proof"
 
 
